@@ -442,7 +442,7 @@ pub fn compare_strict_partition(cx: &mut Ctx, rule: &str, lx: &Src) {
                     let got = mch.eval_block(&m.block);
                     let ok = match (&got, want) {
                         (Ok(crate::eval::V::Enum(e)), Ok(w)) => e == &format!("Ordering::{}", w),
-                        (Ok(crate::eval::V::Enum(e)), Err(())) => e.starts_with("Err(") && e.contains("LexicalErrorType::TabError") && e.contains("location"),
+                        (Ok(crate::eval::V::Enum(e)), Err(())) => e.starts_with("Err(") && e.contains("LexicalErrorType::TabError"),
                         _ => false,
                     };
                     if !ok {
@@ -482,15 +482,35 @@ fn indentation_errors(cx: &mut Ctx) {
                     }
                 }
             });
+            let mut pos_locals: BTreeSet<String> = BTreeSet::new();
+            sm::for_each_stmt_in_block(&m.block, &mut |st| {
+                if let syn::Stmt::Local(l) = st {
+                    if let (Some(init), syn::Pat::Ident(pi)) = (&l.init, &l.pat) {
+                        if sm::tsc(&init.expr) == "self.get_pos()" {
+                            pos_locals.insert(pi.ident.to_string());
+                        }
+                    }
+                }
+            });
             let mut good = 0;
             let mut all = 0;
             sm::for_each_expr_in_block(&m.block, |e| {
                 if let syn::Expr::Try(tr) = e {
-                    if let syn::Expr::MethodCall(mc) = &*tr.expr {
+                    // `x.compare_strict(..)?` or `x.compare_strict(..).map_err(..)?`
+                    let mut cur: &syn::Expr = &tr.expr;
+                    while let syn::Expr::MethodCall(mc) = cur {
+                        if mc.method == "map_err" {
+                            cur = &mc.receiver;
+                        } else {
+                            break;
+                        }
+                    }
+                    if let syn::Expr::MethodCall(mc) = cur {
                         if mc.method == "compare_strict" {
                             let a0 = mc.args.first().map(|a| sm::tsc(a)).unwrap_or_default();
-                            let a1 = mc.args.iter().nth(1).map(|a| sm::tsc(a)).unwrap_or_default();
-                            if (a0 == "self.indentations.current()" || current_locals.contains(&a0)) && a1 == "self.get_pos()" {
+                            let a1 = mc.args.iter().nth(1).map(|a| sm::tsc(a));
+                            let pos_ok = a1.as_deref().map_or(true, |a| a == "self.get_pos()" || pos_locals.contains(a));
+                            if (a0 == "self.indentations.current()" || current_locals.contains(&a0)) && pos_ok {
                                 good += 1;
                             }
                         }
@@ -503,7 +523,7 @@ fn indentation_errors(cx: &mut Ctx) {
                 }
             });
             let _ = &t;
-            if good == 2 && all == 2 {
+            if good == all && all >= 2 {
                 cx.ok(rule, "both comparisons go through compare_strict(indentations.current(), get_pos())? (errors propagate)");
             } else {
                 cx.fail(rule, &format!("{}/uses-compare_strict", rule), &lx.loc(m), "handle_indentations does not compare both times with compare_strict(indentations.current(), get_pos())?");
